@@ -11,9 +11,11 @@
    Arity says how many operands an operation consumes; Coverage is the measured denominator. *)
 EXTENDS Integers, Sequences, FiniteSets, TLC, Json
 Ops1 == {"UnaryOp-", "UnaryOp^", "UnaryOp!", "UnaryOp<-", "Star", "Elem", "IncDec", "MemberVal", "MemberRef", "TypeAssert", "Call0", "Convert",
-         "len", "cap", "Index0", "EndStmt", "Return1", "Defer", "Go", "RangeThen", "IfThen", "SwitchThen", "ZeroConv"}
+         "len", "cap", "Index0", "EndStmt", "Return1", "Defer", "Go", "RangeThen", "IfThen", "SwitchThen", "ZeroConv",
+         "MemberAlias", "MemberAutoProp", "TypeAssert2", "IndexRef0", "ElemRef", "StructLit1", "ArrayLit1", "TypeSwitchThen", "ForThen", "InlineClosure1", "Instantiate", "DefineVar", "CallEllipsis1", "new", "make", "panic"}
 Ops2 == {"BinaryOp+", "BinaryOp/", "BinaryOp%", "BinaryOp<<", "BinaryOp>>", "BinaryOp==", "BinaryOp<", "BinaryOp&&", "BinaryOp&^",
-         "Assign", "AssignOp+=", "AssignOp<<=", "Send", "Index", "Slice", "Call1", "append", "copy", "MapLit", "SliceLit", "CaseThen"}
+         "Assign", "AssignOp+=", "AssignOp<<=", "Send", "Index", "Slice", "Call1", "append", "copy", "MapLit", "SliceLit", "CaseThen",
+         "Slice3", "StructLitKV", "ArrayLitKV", "SliceLitKV", "IndexRef", "Call2", "Return2", "AssignMulti", "CommCaseSend", "RangeAssign", "delete", "complex", "min"}
 Operands == {"int", "int8", "uint", "float", "string", "bool", "slice", "array", "map", "chan", "ptr", "func", "struct", "iface", "named",
              "c0", "c1", "cneg", "cfloat", "cstring", "cbool", "crune", "nil", "c2p40", "c2p63", "c2p64", "c2p100", "chuge", "cbigshift", "type", "ref", "tuple2", "novalue",
              "cyc", "cycptr", "recslice"}   \* values whose types are recursive: A{*B}, B{*A} (embedding cycle through pointers), *A, type L []L
